@@ -11,6 +11,23 @@ import LitexProofs.RoundRobin
 namespace Litex.Timeout.Wb
 open Litex
 
+theorem orAll_false {k : Nat} {f : Nat → Bool} (h : ∀ j, f j = false) : orAll k f = false := by
+  induction k with
+  | zero => rfl
+  | succ k ih => simp [orAll, ih, h]
+
+theorem orAll_congr {k : Nat} {f g : Nat → Bool} (h : ∀ j, j < k → f j = g j) : orAll k f = orAll k g := by
+  induction k with
+  | zero => rfl
+  | succ k ih =>
+    simp only [orAll]
+    rw [ih (fun j hj => h j (by omega)), h k (by omega)]
+
+theorem orDat_zero {k : Nat} {f : Nat → Nat} (h : ∀ j, f j = 0) : orDat k f = 0 := by
+  induction k with
+  | zero => rfl
+  | succ k ih => simp [orDat, ih, h]
+
 /-! ### The `Timeout` module alone -/
 
 /-- Per-cycle observation "the watched bus carries a request that is not acknowledged" (after the override). -/
